@@ -325,7 +325,7 @@ for _op, _n in (('sum', 1), ('prod', 1), ('sum', 2)):
 
 KIND_OPS = [
     ('consolidate', lambda f, k, xp: f.consolidate() if hasattr(f, 'consolidate') and not hasattr(f.consolidate, 'iloc') else f.__class__(f._blocks.consolidate(), index=f.index, columns=f.columns)),
-    ('iloc_cols', lambda f, k, xp: f.iloc[:, k]), ('iloc_rows_cols', lambda f, k, xp: f.iloc[::-1, k]), ('iloc_row', lambda f, k, xp: f.iloc[1, k]),
+    ('iloc_cols', lambda f, k, xp: f.iloc[:, k]), ('iloc_rows_cols', lambda f, k, xp: f.iloc[::-1, k]), ('iloc_row', lambda f, k, xp: f.iloc[1, k]), ('iloc_row0', lambda f, k, xp: f.iloc[0, k]), ('loc_row0', lambda f, k, xp: f.loc[100, f.columns.values[k].tolist()] if not isinstance(k, slice) else f.loc[100][k]),
     ('drop_cols', lambda f, k, xp: f.drop.iloc[:, k]), ('mask_cols', lambda f, k, xp: f.mask.iloc[0, k]),
     ('assign_cols', lambda f, k, xp: f.assign.iloc[1, k](-7)), ('astype_cols', lambda f, k, xp: f.astype.iloc[:, k](float) if False else f.astype[f.columns.values[k].tolist() if not isinstance(f.columns.values[k], str) else f.columns.values[k]](float)),
     ('shift_cols', lambda f, k, xp: f.shift(0, 1, fill_value=-1)), ('roll_cols', lambda f, k, xp: f.roll(1, -1, include_index=True, include_columns=True)),
@@ -336,7 +336,7 @@ KIND_OPS = [
     ('sort_cols_desc', lambda f, k, xp: f.sort_columns(ascending=False)), ('reindex_cols', lambda f, k, xp: f.reindex(columns=['d', 'b', 'zz'], fill_value=-1)),
     ('rename_insert', lambda f, k, xp: f.insert_after('b', f['a'].rename('new'))),
 ]
-COL_KEYS4 = (slice(1, 3), [2, 0], [True, False, True, True], slice(None, None, -1))
+COL_KEYS4 = (slice(2, 4), [2, 0], [True, False, True, True], slice(1, 3), slice(None, None, -1))
 BINOP_OPS = [('add_frame', lambda f, k, xp: f + f.iloc[:, k]), ('lt_frame', lambda f, k, xp: f.iloc[:, k] < f)]
 K4 = (('int64', (3, 4)), ('float64', (1.5, 2.5)), ('bool', (True, False)), ('object', (7, 'zz')), ('<U4', ('c', 'abcd')))
 # per column: which kinds it may take (index into K4); the first entry is the value of the symbolic selector 0
@@ -364,7 +364,7 @@ def _lays_for(kinds, every=True):
 
 def mk_kinds_all_layouts(group, tier='quick', pre=(), suffix='', part='all'):
     byname = dict(KIND_OPS)
-    names = {'select': ('iloc_cols', 'iloc_rows_cols'), 'select_row': ('iloc_row', 'clip_none'), 'update': ('drop_cols', 'mask_cols', 'assign_cols', 'astype_cols'),
+    names = {'select': ('iloc_cols', 'iloc_rows_cols'), 'select_row': ('iloc_row', 'iloc_row0', 'loc_row0', 'clip_none'), 'update': ('drop_cols', 'mask_cols', 'assign_cols', 'astype_cols'),
              'arith': ('add_scalar', 'eq_scalar', 'isin'), 'retype': ('consolidate', 'shift_cols', 'roll_cols', 'transpose'),
              'views': ('to_pairs', 'iter_tuple', 'dtypes', 'iter_series0'), 'relabel': ('sort_cols_desc', 'reindex_cols', 'rename_insert')}
     ops = BINOP_OPS if group == 'binop' else [(n, byname[n]) for n in names[group]]
@@ -420,7 +420,7 @@ def mk_kinds_all_layouts(group, tier='quick', pre=(), suffix='', part='all'):
             return got, [can] * len(lays)
         return rt.untraced(run)
     return Cond(f'frame_ops_all_layouts_kinds_{group}{suffix}' + ('' if tier == 'quick' else '_every'), [('k0', 'int'), ('k1', 'int'), ('k2', 'int'), ('k3', 'int'), ('ck', 'int')], body,
-            ranges={'k0': (0, 1), 'k1': (0, 1 if tier == 'quick' else 2), 'k2': (0, 2), 'k3': (0, 2), 'ck': (0, (2 if tier == 'quick' else 3))}, pre=list(pre) + ([] if group in ('select', 'select_row', 'update') else ['k2 != 2']) + ([] if uses_key else ['ck == 0']),
+            ranges={'k0': (0, 1), 'k1': (0, 1 if tier == 'quick' else 2), 'k2': (0, 2), 'k3': (0, 2), 'ck': (0, (2 if tier == 'quick' else 4))}, pre=list(pre) + ([] if group in ('select', 'select_row', 'update') else ['k2 != 2']) + ([] if uses_key else ['ck == 0']),
             functions=['TypeBlocks._extract', 'TypeBlocks._drop_blocks'] if group == 'select' else [],
             bounds=f'2x4 frame; column kinds symbolic (per column a choice among int64, float64, bool, object holding an int and a str, <U4 holding a shorter string); column key symbolic over {COL_KEYS4}; EVERY block layout that can hold the kinds against one block per column; operations: ' + ', '.join(n for n, _ in ops),
             route='keyed and whole-frame operations on mixed column kinds: values, labels, per-column dtype kinds and raised error class equal across all block layouts', tier=tier, timeout=600)
